@@ -1,5 +1,7 @@
 // drvt.cpp — C20 workload: N threads, each with its own exporter, encoder, writers (plain / gzip / xz), reader, blocks and text
 // renderers on its own outputs, run concurrently (under ThreadSanitizer) and compared with the same work done sequentially.
+// In every second round all exporters are constructed from ONE FilePreamble object (read-only for the constructor) and each
+// thread adds its own block-parameter sets to its own exporters.
 //   usage: drvt <threads> <rounds>      prints "ok <threads> <rounds>" or "mismatch thread <i> round <r>"
 #include <cstdio>
 #include <cstdlib>
@@ -20,16 +22,28 @@ static std::string read_fd_all(int fd) {
 }
 static uint64_t fnv(uint64_t h, const std::string& s) { for (unsigned char c : s) { h ^= c; h *= 1099511628211ULL; } return h; }
 
-static uint64_t work(int i, int round) {
+// one preamble object that every exporter of every thread is constructed from in the 'shared' rounds: the constructor only reads
+// it, each exporter keeps its own copy, so adding parameter sets to one exporter must not be visible to any other
+static FilePreamble g_shared_preamble;
+
+static uint64_t work(int i, int round, bool shared) {
     uint64_t h = 14695981039346656037ULL;
     CborOutputCompression comp = (i % 3 == 0) ? CborOutputCompression::NO_COMPRESSION : (i % 3 == 1) ? CborOutputCompression::GZIP : CborOutputCompression::XZ;
-    FilePreamble fp;
-    fp.m_block_parameters[0].storage_parameters.max_block_items = 7 + i;
+    FilePreamble local;
+    local.m_block_parameters[0].storage_parameters.max_block_items = 7 + i;
+    FilePreamble& fp = shared ? g_shared_preamble : local;
     int fd1 = memfd_create("t", 0), fd2 = memfd_create("t", 0), fdp = memfd_create("t", 0);
     int k1 = dup(fd1), k2 = dup(fd2), kp = dup(fdp);
     {
         CdnsExporter x(fp, fd1, comp);
         CdnsExporter plain(fp, fdp, CborOutputCompression::NO_COMPRESSION);
+        if (shared) {
+            // this thread's own parameter set, added to ITS exporters only, and activated
+            BlockParameters bp; bp.storage_parameters.max_block_items = 7 + i; bp.storage_parameters.ticks_per_second = 1000 + i;
+            for (int r = 0; r <= i % 3; r++) { h = fnv(h, std::to_string(x.add_block_parameters(bp))); plain.add_block_parameters(bp); }
+            h = fnv(h, std::to_string(x.set_active_block_parameters(1))); plain.set_active_block_parameters(1);
+            x.write_block(); plain.write_block();
+        }
         for (int q = 0; q < 120; q++) {
             GenericQueryResponse g;
             g.ts = Timestamp(1600000000 + q, (i * 7 + q) % 1000);
@@ -71,13 +85,15 @@ static uint64_t work(int i, int round) {
 int main(int argc, char** argv) {
     int n = argc > 1 ? atoi(argv[1]) : 4, rounds = argc > 2 ? atoi(argv[2]) : 3;
     std::vector<uint64_t> ref(n);
-    for (int i = 0; i < n; i++) ref[i] = work(i, 0);
+    std::vector<uint64_t> refs(n);
+    for (int i = 0; i < n; i++) { ref[i] = work(i, 0, false); refs[i] = work(i, 0, true); }
     for (int r = 0; r < rounds; r++) {
         std::vector<uint64_t> got(n);
         std::vector<std::thread> th;
-        for (int i = 0; i < n; i++) th.emplace_back([&got, i, r] { got[i] = work(i, r); });
+        bool shared = r % 2 == 1;
+        for (int i = 0; i < n; i++) th.emplace_back([&got, i, r, shared] { got[i] = work(i, r, shared); });
         for (auto& t : th) t.join();
-        for (int i = 0; i < n; i++) if (got[i] != ref[i]) { printf("mismatch thread %d round %d\n", i, r); return 1; }
+        for (int i = 0; i < n; i++) if (got[i] != (shared ? refs[i] : ref[i])) { printf("mismatch thread %d round %d%s\n", i, r, shared ? " (exporters constructed from one shared FilePreamble object)" : ""); return 1; }
     }
     printf("ok %d %d\n", n, rounds);
     return 0;
